@@ -71,4 +71,27 @@ func init() {
 		}
 		return prevContains(fr, a)
 	})
+	prevCut := symIntrinsics["strings.Cut"]
+	regSym("strings.Cut", func(fr *frame, a []value) value {
+		s, sep := strArg(a[0]), strArg(a[1])
+		if sep.IsConst() && len(sep.S) == 1 {
+			// first constant part containing sep, all earlier parts structurally free of it
+			parts := concatParts(s)
+			for k, p := range parts {
+				if p.IsConst() {
+					if i := strings.Index(p.S, sep.S); i >= 0 {
+						before := mkConcat(append(append([]*Term(nil), parts[:k]...), mkStr(p.S[:i]))...)
+						after := mkConcat(append([]*Term{mkStr(p.S[i+1:])}, parts[k+1:]...)...)
+						return tuple{strVal(before), strVal(after), true}
+					}
+					continue
+				}
+				if !fr.i.m.sepFree(p, sep.S) {
+					return prevCut(fr, a)
+				}
+			}
+			return tuple{strVal(s), "", false}
+		}
+		return prevCut(fr, a)
+	})
 }
